@@ -49,6 +49,8 @@ Definition get_range (rs : list dbl) : dbl :=                             (* Cov
 
 Section WithOracles.
 Variable hasrange hasparam : Z -> bool.
+(* [mtail]: dialect in which the means of a model with drift are appended at the end of the file *)
+Variable mtail : bool.
 
 Definition ser_cova (ndim : Z) (c : cova) : list record :=
   let rs := cv_ranges c in
@@ -71,7 +73,8 @@ Definition ser_Model (o : model) : list record :=
   ++ map (r_str "Drift Identifier") (md_drifts o)
   ++ (if null (md_drifts o) then map (r_dbl "Mean of Variables") (md_means o) else [])
   ++ flat_map ser_sill (md_covs o)
-  ++ flat_map (map (r_dbl "")) (md_covar0 o) ++ [ r_com "Var-Covar at origin" ].
+  ++ flat_map (map (r_dbl "")) (md_covar0 o) ++ [ r_com "Var-Covar at origin" ]
+  ++ (if mtail && negb (null (md_drifts o)) then map (r_dbl "Mean of Variables") (md_means o) else []).
 
 Definition dle (a : dbl) (q : Q) : bool := match a with Some x => Qle_bool x q | None => false end.
 
@@ -114,6 +117,7 @@ Definition deser_Model : reader model :=
   means <- (if nbfl <=? 0 then rrepZ nvar rd_dbl else ret (repeat d0 (Z.to_nat nvar))) ;;
   sills <- rrepZ ncova (rrepZ nvar (rrepZ nvar rd_dbl)) ;;
   covar0 <- rrepZ nvar (rrepZ nvar rd_dbl) ;;
+  means <- (if mtail && (0 <? nbfl) then eod <- rd_eod ;; (if eod : bool then ret means else rrepZ nvar rd_dbl) else ret means) ;;
   ret {| md_ndim := ndim; md_nvar := nvar; md_field := field;
          md_covs := map (fun cs => {| cv_type := cv_type (fst cs); cv_param := cv_param (fst cs);
                                        cv_ranges := cv_ranges (fst cs); cv_rotmat := cv_rotmat (fst cs);
